@@ -26,7 +26,7 @@ CONFIG = {
 }
 
 OBJ_KINDS = ['makespan', 'flowtime', 'priorities', 'start_latest', 'greatest_start', 'indicator_min', 'indicator_max',
-             'bounded_min', 'bounded_max', 'bounded_max', 'multi', 'multi_weighted']
+             'bounded_min', 'bounded_min_tight', 'bounded_min_tight', 'bounded_max', 'bounded_max', 'multi', 'multi_weighted']
 
 
 # ----------------------------------------------------------------------------------------------
@@ -117,6 +117,12 @@ def add_objectives(ps, im, kinds, r):
                 ps.ObjectiveMaximizeIndicator(target=ind, weight=1)
             else:
                 ps.ObjectiveMinimizeIndicator(target=ind, weight=1)
+        elif k == 'bounded_min_tight':
+            # minimisation whose declared lower bound is a true bound and is attained (usually by the first model)
+            import z3
+            t = tasks[0]
+            ind = ps.IndicatorFromMathExpression(name='StartOfFirst', expression=z3.If(t._start < 0, 0, t._start), bounds=(0, 1000))
+            ps.ObjectiveMinimizeIndicator(target=ind, weight=1)
         elif k == 'bounded_max':
             # the declared upper bound is a true bound and is attainable: the loop stops on it (bound stop)
             import z3
@@ -469,7 +475,9 @@ def analyse(out, case, solver, tasks, varlist, outs, marks, sp, z3):
                         blockers += 1
                     if op[0] == 'initialize':
                         blockers = 0
-                    if op[0] == 'solve' and o[0] == 'none' and blockers == 0 and case['cfg'].get('max_iter') != 0:
+                    # (Pareto mode: successive solves walk the front and end with failure by design -- excluded by the property)
+                    pareto = case['cfg'].get('optimizer') == 'optimize' and len(solver.problem.objectives) > 1
+                    if op[0] == 'solve' and o[0] == 'none' and blockers == 0 and case['cfg'].get('max_iter') != 0 and not pareto:
                         if 'unknown' not in answers.values():
                             sem.append(('feasible-reported-infeasible', None, None))
                             break
